@@ -85,10 +85,11 @@ RECURSIVE Bad(_)
 Bad(v) == v[1] \in {"garbage", "half"} \/ \E i \in DOMAIN v[2] : Bad(v[2][i])
 
 -----------------------------------------------------------------------------
-(* programs: all sequences of 0..MaxLen operations; all threads run the same code, so only tuples
-   of programs that are sorted by their position in ProgSeq are explored, and -- because statics
-   that are unrelated by Deps share no memory -- only programs whose statics belong to one
-   connected component of the dependency graph (plus const operations) *)
+(* programs: all sequences of 0..MaxLen operations, Budget calls in total.  All threads run the same
+   code, so of the tuples of programs that differ only by a permutation of the threads one is explored (the
+   one sorted by Key; no SYMMETRY set, which TLC cannot combine with the liveness property), and --
+   because statics that are unrelated by Deps share no memory -- only programs whose statics belong to
+   one connected component of the dependency graph (plus const operations) *)
 RECURSIVE SeqsUpTo(_, _)
 SeqsUpTo(S, n) == IF n = 0 THEN {<< >>}
                   ELSE LET P == SeqsUpTo(S, n - 1) IN P \cup {Append(p, x) : p \in {q \in P : Len(q) = n - 1}, x \in S}
